@@ -100,6 +100,7 @@ macro_rules! release_harness {
 release_harness!(release_drop_up1_c3, VA<0>, S<1, true>, 0, 3, 24, false);
 release_harness!(release_reset_up1_c3, VA<0>, S<1, true>, 1, 3, 24, false);
 release_harness!(release_reset_to_start_up1_c2, VA<0>, S<1, true>, 2, 2, 24, false);
+release_harness!(release_reset_to_start_up1_c3, VA<0>, S<1, true>, 2, 3, 24, false);
 release_harness!(release_scope_up1_c2, VA<0>, S<1, true>, 3, 2, 24, false);
 release_harness!(release_raw_up1_c2, VA<0>, S<1, true>, 4, 2, 24, false);
 release_harness!(release_drop_down1_c2, VA<0>, S<1, false>, 0, 2, 24, true);
